@@ -393,9 +393,6 @@ func (s *S3Proxy) CompleteMultipartUpload(ctx context.Context, input *s3.Complet
 	if input.IfNoneMatch != nil && *input.IfNoneMatch == "" {
 		input.IfNoneMatch = nil
 	}
-	if input.MpuObjectSize != nil && *input.MpuObjectSize == 0 {
-		input.MpuObjectSize = nil
-	}
 	if input.SSECustomerAlgorithm != nil && *input.SSECustomerAlgorithm == "" {
 		input.SSECustomerAlgorithm = nil
 	}
@@ -430,9 +427,6 @@ func (s *S3Proxy) ListMultipartUploads(ctx context.Context, input *s3.ListMultip
 	}
 	if input.KeyMarker != nil && *input.KeyMarker == "" {
 		input.KeyMarker = nil
-	}
-	if input.MaxUploads != nil && *input.MaxUploads == 0 {
-		input.MaxUploads = nil
 	}
 	if input.Prefix != nil && *input.Prefix == "" {
 		input.Prefix = nil
@@ -492,9 +486,6 @@ func (s *S3Proxy) ListMultipartUploads(ctx context.Context, input *s3.ListMultip
 func (s *S3Proxy) ListParts(ctx context.Context, input *s3.ListPartsInput) (s3response.ListPartsResult, error) {
 	if input.ExpectedBucketOwner != nil && *input.ExpectedBucketOwner == "" {
 		input.ExpectedBucketOwner = nil
-	}
-	if input.MaxParts != nil && *input.MaxParts == 0 {
-		input.MaxParts = nil
 	}
 	if input.PartNumberMarker != nil && *input.PartNumberMarker == "" {
 		input.PartNumberMarker = nil
